@@ -6,9 +6,12 @@ import (
 	"regexp"
 	"strings"
 
+	dtpb "github.com/google/fhir/go/proto/google/fhir/proto/r4/core/datatypes_go_proto"
+	ppb "github.com/google/fhir/go/proto/google/fhir/proto/r4/core/resources/patient_go_proto"
 	"github.com/verily-src/fhirpath-go/fhirpath/system"
 	"github.com/verily-src/fhirpath-go/fhirpath/verifh/core"
 	"github.com/verily-src/fhirpath-go/fhirpath/verifh/lib"
+	"github.com/verily-src/fhirpath-go/internal/fhir"
 )
 
 // ---- C13: conversion functions are mutually consistent and round-trip.
@@ -111,6 +114,9 @@ func c13Conv(target string, it c13Item) int {
 	if it.kind == "complex" {
 		return cNo
 	}
+	if it.kind == "valueless" {
+		return cUndef // an element without a value: only the relations between toT and convertsToT are judged
+	}
 	if it.kind == "String" {
 		return c13StringConv(target, it.str)
 	}
@@ -202,6 +208,31 @@ func c13Items() []c13Item {
 		}
 		out = append(out, it)
 	}
+	// elements that carry no value (only an id, an extension, a unit): whatever toT
+	// makes of them, convertsToT has to agree and the result has to be a T
+	ext := []*dtpb.Extension{{Url: fhir.URI("http://u"), Value: &dtpb.Extension_ValueX{Choice: &dtpb.Extension_ValueX_StringValue{StringValue: fhir.String("x")}}}}
+	for _, vl := range []struct {
+		id string
+		v  any
+	}{
+		{"f.qty.novalue", &dtpb.Quantity{Unit: fhir.String("mg"), Code: fhir.Code("mg"), System: fhir.URI("http://unitsofmeasure.org")}},
+		{"f.qty.nounit", &dtpb.Quantity{Value: &dtpb.Decimal{Value: "1.5"}}},
+		{"f.qty.empty", &dtpb.Quantity{}},
+		{"f.qty.badvalue", &dtpb.Quantity{Value: &dtpb.Decimal{Value: "abc"}, Unit: fhir.String("mg")}},
+		{"f.str.extonly", &dtpb.String{Extension: ext}},
+		{"f.bool.idonly", &dtpb.Boolean{Id: fhir.String("b1")}},
+		{"f.dec.empty", &dtpb.Decimal{Extension: ext}},
+		{"f.dec.bad", &dtpb.Decimal{Value: "abc"}},
+		{"f.date.empty", &dtpb.Date{Extension: ext}},
+		{"f.datetime.empty", &dtpb.DateTime{Extension: ext}},
+		{"f.time.empty", &dtpb.Time{Extension: ext}},
+		{"f.instant.empty", &dtpb.Instant{Extension: ext}},
+		{"f.code.enum.unset", &ppb.Patient_GenderCode{}},
+		{"f.age.novalue", &dtpb.Age{Unit: fhir.String("a")}},
+		{"f.duration", &dtpb.Duration{Value: &dtpb.Decimal{Value: "2"}, Unit: fhir.String("h"), Code: fhir.Code("h"), System: fhir.URI("http://unitsofmeasure.org")}},
+	} {
+		out = append(out, c13Item{id: vl.id, v: vl.v, kind: "valueless", class: "fhir.valueless." + strings.TrimPrefix(vl.id, "f.")})
+	}
 	// string grammar
 	add := func(class, s string) {
 		out = append(out, c13Item{id: fmt.Sprintf("g%q", s), v: system.String(s), kind: "String", class: "str.g." + class, str: s})
@@ -271,7 +302,7 @@ func c13StrClass(s string) string {
 func init() {
 	core.Register(&core.Check{
 		ID:   "C13",
-		Rule: "every item of the value pool V u E plus a finite string grammar (signed/unsigned numbers x fraction x exponent x whitespace; Boolean spellings; date/time texts incl. calendar-invalid ones; quantity texts) x 8 target types: convertsToT = toT().exists(), unconvertible -> empty, result type, idempotence, toString round trip, and agreement with the FHIRPath conversion table; non-trivial = distinct (item, target, outcome)",
+		Rule: "every item of the value pool V u E, 15 elements without a usable value (Quantity without value / unit, primitives holding only an id or an extension, unparsable decimal text, unset enum code; relations only, no table) plus a finite string grammar (signed/unsigned numbers x fraction x exponent x whitespace; Boolean spellings; date/time texts incl. calendar-invalid ones; quantity texts) x 8 target types: convertsToT = toT().exists(), unconvertible -> empty, result type, idempotence, toString round trip, and agreement with the FHIRPath conversion table; non-trivial = distinct (item, target, outcome)",
 		Assumptions: []string{"conversion table and string formats transcribed from FHIRPath N1 section 5.5", "date/time strings with the literal-only trailing 'T' / leading 'T' are left undefined (totality only); a leading '@' is not part of the string format"},
 		Subs: func(tier string) []core.Sub {
 			items := c13Items()
